@@ -255,4 +255,18 @@ func init() {
 		}, walletAssume...),
 		Outside: "signature validity; longer send sequences; reorgs between sends (C01/C02 cover the store side); PSBT funding paths",
 	})
+	reg(&propDef{
+		ID: "C09",
+		Runs: []hrun{
+			{Pkg: walletPkg, Fn: "ZzC09B1All", Tiers: "qt", Sched: true, Reach: []string{"c09-end"}, Bound: "2 goroutines, one call each from {NewAddress, NewChangeAddress, CurrentAddress} on the same account, every interleaving of their synchronisation operations with at most 1 preemptive context switch (the database model yields between releasing the writer lock and running the commit handlers)"},
+			{Pkg: walletPkg, Fn: "ZzC09B2", Tiers: "qt", Sched: true, Reach: []string{"c09-end"}, Bound: "NewAddress/NewChangeAddress pairs, at most 2 preemptions"},
+			{Pkg: walletPkg, Fn: "ZzC09B2All", Tiers: "t", Sched: true, Reach: []string{"c09-end"}, Bound: "all 9 pairs, at most 2 preemptions"},
+		},
+		Assume: append([]string{
+			"context switches only at synchronisation operations (mutexes, channel operations, the explicit yield in memdb.Commit); data-race freedom is assumed, not checked",
+			"schedule-dependent counterexamples are confirmed natively only if the Go scheduler happens to reproduce them; otherwise by deterministic re-execution in the executor",
+			"three of the six newAddrMtx call sites are driven (NewAddress, NewChangeAddress, CurrentAddress); txToOutputs, FundPsbt and ImportAccountDryRun are not",
+		}, walletAssume...),
+		Outside: "more than 2 concurrent callers, more than 2 preemptions, the three entry points not driven, real bbolt locking",
+	})
 }
